@@ -121,6 +121,7 @@ pub fn gen_config(prop: &str, tier: Tier, rng: &mut Rng) -> Config {
         busy_after_call: false,
         factory_fails_on_restart: false,
         freeze: false,
+        gated_restart: false,
     };
     let lst = |rng: &mut Rng, uds_w: u64| -> Vec<Lst> {
         let n = if rng.chance(1, 3) { 2 } else { 1 };
@@ -209,8 +210,18 @@ pub fn gen_config(prop: &str, tier: Tier, rng: &mut Rng) -> Config {
         }
         "C06" => {
             c.workers = rng.range(1, 2) as usize;
-            c.shutdown_timeout_s = if rng.chance(1, 12) { u64::MAX } else { rng.range(0, 5) };
+            c.shutdown_timeout_s = match rng.below(14) {
+                0 => u64::MAX,
+                1 => 40,
+                _ => rng.range(0, 5),
+            };
             c.freeze = rng.chance(1, 4);
+            // a stop may arrive while a failed service is being re-created by a slow factory
+            if rng.chance(1, 5) {
+                c.scripts = true;
+                c.factory_polls = rng.range(0, 2) as u32;
+                c.gated_restart = rng.chance(1, 2);
+            }
             c.stop = true;
             c.advance = true;
             c.signals = rng.chance(1, 3);
@@ -777,6 +788,9 @@ pub fn at_quiescence(sim: &mut Sim) {
         let av = h.iter().map(|i| a.available(*i)).collect();
         (a.paused(), a.timeout().is_some(), h, av)
     };
+    // paused *by command*: at quiescence every command has been processed, so the last one issued
+    // says whether the server is meant to be paused (the loop's own flag is what is being judged)
+    let paused = if matches!(prop, "C03" | "C08") { sim.o.last_pause_cmd == Some(true) } else { paused };
     if paused || timeout || sh.armed_fault.get().is_some() {
         return;
     }
@@ -849,6 +863,12 @@ pub async fn drain_and_final(sim: &mut Sim) {
     for w in sh.workers.borrow_mut().iter_mut() {
         w.frozen = false;
     }
+    if prop != "C06" {
+        sh.restart_gate_open.set(true);
+        for w in sh.restart_gate_wakers.borrow_mut().drain(..) {
+            w.wake();
+        }
+    }
     sh.armed_fault.set(None);
     sh.panic_next_call.set(None);
     sim.settle();
@@ -893,7 +913,7 @@ pub async fn drain_and_final(sim: &mut Sim) {
     }
     if sim.o.stop_issued {
         // let a graceful shutdown run to its end
-        for _ in 0..(sh.cfg.shutdown_timeout_s.min(8) + 3) {
+        for _ in 0..(sh.cfg.shutdown_timeout_s.min(45) + 3) {
             if sim.server.is_none() {
                 break;
             }
@@ -1207,7 +1227,7 @@ async fn final_c06(sim: &mut Sim) {
     // 1 s worker tick), forced at once; signal mode adds the 300 ms exit delay
     // an unbounded timeout: the graceful stop ends when the connections do
     let unbounded = sh.cfg.shutdown_timeout_s > 1000;
-    let t = sh.cfg.shutdown_timeout_s.min(8);
+    let t = sh.cfg.shutdown_timeout_s.min(45);
     let release_first = unbounded || sh.chooser(|ch| !ch.taken.is_empty() && ch.taken.len() % 2 == 0);
     if release_first {
         release_all(sim);
@@ -1331,7 +1351,7 @@ pub fn required_probes(prop: &str, tier: Tier) -> Vec<&'static str> {
         "C01" => vec!["probe.queued_conn_released_on_shutdown", "probe.race_window_progress"],
         "C04" => vec!["probe.rr_window_checked", "probe.rr_window_from_quiescence", "probe.bitset_runs", "probe.rr_cursor_checked"],
         "C05" => vec!["probe.backoff_armed", "probe.per_connection_error_handled", "probe.commands_acknowledged", "cmd.pause", "cmd.resume", "probe.two_listeners_backing_off", "probe.pause_state_judged"],
-        "C06" => vec!["probe.stop_completed", "probe.graceful_stop_with_connections", "probe.forced_stop_with_connections", "probe.forced_stop_judged", "probe.second_stop", "probe.stop_future_dropped", "probe.stop_after_server_end", "probe.stop_window_progress", "fault.worker_frozen"],
+        "C06" => vec!["probe.stop_completed", "probe.graceful_stop_with_connections", "probe.forced_stop_with_connections", "probe.forced_stop_judged", "probe.second_stop", "probe.stop_future_dropped", "probe.stop_after_server_end", "probe.stop_window_progress", "fault.worker_frozen", "probe.restart_waiting_at_gate"],
         "C07" => vec!["probe.call_after_ready_round", "probe.service_restarted", "probe.queue_order_checked", "probe.busy_after_call", "probe.connection_burst"],
         "C08" => vec!["probe.send_failed_discovered", "probe.replacement_in_rotation", "probe.replacement_served", "fault.factory_fails_on_restart"],
         _ => vec![],
